@@ -159,7 +159,8 @@ def issued_ok(st):
     r = rooms(st)
     n, ro, s = z3.Consts('is_n is_r is_s', V)
     return {'issued.members': FA([n, ro, s], z3.Implies(member(st, n, ro, s), iss.c['.'][s])),
-            'issued.room-names': FA([n, ro, s], z3.Implies(z3.And(member(st, n, ro, s), ro != NONE), iss.c['.'][ro]))}
+            'issued.room-names': FA([n, ro, s], z3.Implies(z3.And(member(st, n, ro, s), ro != NONE), iss.c['.'][ro])),
+            'issued.callback-keys': FA([s], z3.Implies(st.get('manager', 'callbacks').c['dom'][s], iss.c['.'][s]))}
 
 
 def cb_present(st, sid, k, obj='manager'):
